@@ -168,7 +168,12 @@ func verifC13Sort() {
 	ss := make([]string, n)
 	vs := make([]cty.Value, n)
 	for i := range ss {
-		ss[i] = vStr("s", 1, 'a', 'c')
+		// one byte over {a,b,c}, or (second family) 0..2 bytes over {a,b}: prefixes order before their extensions
+		if vChoice("slen", 2) == 0 {
+			ss[i] = vStr("s", 1, 'a', 'c')
+		} else {
+			ss[i] = vStr("s", vChoice("slen2", 3), 'a', 'b')
+		}
 		vs[i] = cty.StringVal(ss[i])
 	}
 	var in cty.Value
@@ -190,7 +195,7 @@ func verifC13Sort() {
 		for i := 1; i < len(out); i++ {
 			vAssert("sort-ordered", out[i-1] <= out[i])
 		}
-		for _, c := range []string{"a", "b", "c"} {
+		for _, c := range []string{"", "a", "b", "c", "aa", "ab", "ba", "bb"} {
 			ci, co := int64(0), int64(0)
 			for i := range ss {
 				ci += vIte(ss[i] == c, 1, 0)
@@ -473,7 +478,7 @@ func verifC13Merge() {
 			v = cty.NullVal(cty.Map(cty.Number))
 		}
 		args = append(args, v)
-		for _, c := range []string{"a", "b", "c"} {
+		for _, c := range []string{"", "a", "b", "c", "aa", "ab", "ba", "bb"} {
 			if x, ok := r[c]; ok {
 				ref[c] = x
 			}
@@ -500,7 +505,7 @@ func verifC13Merge() {
 		}
 		// the members are exactly the reference's: the last argument that has a key wins
 		vAssert("merge-length", r.LengthInt() == len(ref))
-		for _, c := range []string{"a", "b", "c"} {
+		for _, c := range []string{"", "a", "b", "c", "aa", "ab", "ba", "bb"} {
 			w, ok := ref[c]
 			var got cty.Value
 			has := false
@@ -568,7 +573,7 @@ func verifC13Zipmap() {
 			vAssert("zipmap-list-gives-map", r.Type().Equals(cty.Map(cty.Number)))
 		}
 		vAssert("zipmap-length", r.LengthInt() == len(ref))
-		for _, c := range []string{"a", "b", "c"} {
+		for _, c := range []string{"", "a", "b", "c", "aa", "ab", "ba", "bb"} {
 			w, ok := ref[c]
 			has := false
 			var got cty.Value
